@@ -1,3 +1,4 @@
+import io
 import time
 import socket
 from sys import platform
@@ -305,7 +306,16 @@ class TcpConnection(object):
                 self.recvLastTimestamp = dataTimestamp
                 # Unfortunately we can't get a timestamp and data in one go
                 data = self.encryptor.decrypt(data)
-            message = pickle.loads(zlib.decompress(data))
+            # The frame must be consumed exactly: zlib.decompress() and pickle.loads() silently ignore
+            # whatever follows the end of the stream, so a length field that is too large went unnoticed.
+            decompressor = zlib.decompressobj()
+            raw = decompressor.decompress(data)
+            if not decompressor.eof or decompressor.unused_data:
+                raise ValueError('frame payload is not exactly one zlib stream')
+            rawStream = io.BytesIO(raw)
+            message = pickle.load(rawStream)
+            if rawStream.tell() != len(raw):
+                raise ValueError('trailing bytes behind the pickled message')
             if self.recvRandKey:
                 randKey, message = message
                 assert randKey == self.recvRandKey
